@@ -551,7 +551,7 @@ def rand_float_case(rng, maxlen):
         if t[:3] == 'el:' and t[3:] != 'N':
             m = rand_float(rng)
             if rng.random() < 0.15: m = -m
-            t = 'el:' + float(m).hex()
+            t = 'el:' + (float(m) + 0.0).hex()          # + 0.0: never -0.0 (its sign is not transported to the model)
         ops.append(t)
     # composite tokens carry their own random bodies: rewrite el:<int> inside them too
     def fix(tok):
@@ -575,16 +575,16 @@ def rand_float_case(rng, maxlen):
     q = rng.random()
     if q < 0.15: d = None
     elif q < 0.22: d = 'D'
-    elif q < 0.26: d = (-rand_float(rng)).hex() if rng.random() < 0.5 else (-0.5).hex()
+    elif q < 0.26: d = (-rand_float(rng) + 0.0).hex() if rng.random() < 0.5 else (-0.5).hex()
     else: d = float(rand_float(rng)).hex()
-    return {'op': 'frun', 'dint': rng.random() < 0.3, 'durs': [d], 'ops': ops, 'clocks': [[float(v).hex() for v in clock]]}
+    return {'op': 'frun', 'dint': rng.random() < 0.3, 'durs': [d], 'ops': ops, 'clocks': [[(float(v) + 0.0).hex() for v in clock]]}
 
 def gen_cases(rng, tier):
     # boundary histories first
     yield {'op': 'run', 'scale': 1, 'durs': DURS + ['D'], 'ops': [], 'clocks': std_clocks(2)}
     yield from exhaustive(4 if tier == 'quick' else 5)
-    yield from exhaustive(3, MUTATORS + CONTEXT, must_contain=set(CONTEXT),
-                          durs=[None, 3] if tier == 'quick' else DURS)
+    ctx = CONTEXT[:7] if tier == 'quick' else CONTEXT
+    yield from exhaustive(3, MUTATORS + ctx, must_contain=set(ctx), durs=[None, 3] if tier == 'quick' else DURS)
     for _ in range(3000 if tier == 'quick' else 60000):
         yield rand_case(rng, 40)
     for _ in range(100 if tier == 'quick' else 2000):
@@ -640,16 +640,20 @@ def explore(tu, d, clock, depth, alphabet=FULL_ALPHABET):
     finally:
         tu.now = saved
 
+BASE_ALPHABET = MUTATORS + OBSERVERS + ['el:N', 'lo:F']
+
 def extra_checks(rng, tier):
     tu = _tu()
-    depth = 6 if tier == 'quick' else 10
-    for d in DURS + ['D']:
-        for pname, pat in PATTERNS.items():
-            clock = clock_of(pat, 2 * depth * max(len(flat([t])) for t in FULL_ALPHABET) + 2)
-            path, msg, visited, covered = explore(tu, d, clock, depth)
-            case = {'op': 'run', 'scale': 1, 'durs': [d], 'ops': path or [], 'clocks': [clock]}
-            yield ('all-sequences-upto-%d:%s' % (depth, pname), case,
-                   None if msg is None else 'duration %r, clock %s: %s' % (d, pname, msg))
+    plans = [('plain', BASE_ALPHABET, 6 if tier == 'quick' else 10), ('context', FULL_ALPHABET, 4 if tier == 'quick' else 6)]
+    for label, alphabet, depth in plans:
+        width = max(len(flat([t])) for t in alphabet)
+        for d in DURS + ['D']:
+            for pname, pat in PATTERNS.items():
+                clock = clock_of(pat, 2 * depth * width + 2)
+                path, msg, visited, covered = explore(tu, d, clock, depth, alphabet)
+                case = {'op': 'run', 'scale': 1, 'durs': [d], 'ops': path or [], 'clocks': [clock]}
+                yield ('all-%s-sequences-upto-%d:%s' % (label, depth, pname), case,
+                       None if msg is None else 'duration %r, clock %s: %s' % (d, pname, msg))
 
 def classify(c, io):
     if c['op'][0] == 'f':
@@ -680,32 +684,48 @@ RULE = ('correspondence + oracle: every call sequence of length 1..4 (quick) / 1
         'statements with bodies of 0-2 calls that end normally or raise either class) containing at least one of the latter; random histories of length <= 40 and <= 400 over the full '
         'alphabet incl. has_started/has_stopped/splits, maxima incl. negative ones, durations incl. default/None/negative/10^12, dyadic '
         'scales {1, 1/4, 1/1024}, monotonic, constant, mixed and mostly-backwards clocks.  Oracle only (extra check all-sequences-upto-n): '
-        'EVERY sequence of length <= 6 (quick) / <= 10 (thorough) over the full 27-token alphabet (incl. the 10 context-manager tokens) x durations {None, default, 0, 3, 10^6} x '
+        'EVERY sequence of length <= 6 (quick) / <= 10 (thorough) over the 17 plain tokens, and of length <= 4 / <= 6 over all 27 tokens '
+        '(incl. the 10 context-manager tokens), x durations {None, default, 0, 3, 10^6} x '
         'the 4 clocks, by exhaustive exploration of the configuration graph (histories leaving the object with equal __dict__, clock '
-        'position and reference state are continued once).  distinct = distinct case JSON; trivial = empty history')
-TRUSTED = ['timeutils.now is replaced by a scripted clock (the property fixes the clock as an input); clock readings, durations and maxima are '
-           'integer multiples of a power-of-two unit, so CPython float arithmetic on them is exact and is modelled by Z',
-           'tools/gen/gen_C13.py: statement-level translator of class StopWatch (A-normal form, explicit state threading, state kept on raise)']
-ASSUMPTIONS = ['all-sequences-upto-n explores configurations, not sequences: it relies on a StopWatch\'s behaviour being a function of its '
+        'position and reference state are continued once).  binary64 instance (ops frun): every sequence of length 1..3 (quick) / 1..4 over 12 '
+        'calls x durations {None, 0.3, 1e-9} x float clocks {+0.1 steps, 1e15+0.3 with absorbed 1e-9 steps, 86400.3 with 1e-9 / 2.5e-7 steps, '
+        'backwards}; random float histories (<= 30 and <= 300 calls) with readings/durations/maxima drawn from non-dyadic constants, '
+        'x * 10^k, and uniformly random finite bit patterns, steps incl. 5e-324, 1e-300, 1e15; compared bit-exactly (float.hex).  '
+        'distinct = distinct case JSON; trivial = empty history')
+TRUSTED = ['timeutils.now is replaced by a scripted clock (the property fixes the clock as an input)',
+           'tools/gen/gen_C13.py: statement-level translator of class StopWatch (A-normal form, explicit state threading, state kept on raise), '
+           'generic in the number type: 0.0, -, >, >=, max/min are the only numeric operations it emits',
+           'Base/PyFloat.v: binary64 on the standard library\'s SpecFloat (SFsub, SFltb, SFleb, binary_normalize, float.hex printer), tied to CPython '
+           'bit-exactly by the float correspondence of this property; Flocq 4.1 (Bminus_correct, Bleb_correct, round_le) for the monotonicity of float '
+           'subtraction: the 4 theorems that use it print the standard library\'s classical-reals axioms (sig_forall_dec, sig_not_dec, classic, '
+           'functional_extensionality_dep), all other theorems are closed under the global context']
+ASSUMPTIONS = ['all-*-sequences-upto-n explores configurations, not sequences: it relies on a StopWatch\'s behaviour being a function of its '
                '__dict__ and of the clock position (no hidden state)',
-               'clock readings/durations/maxima are modelled as integers (Z): the harness only scripts integer multiples of 2^-k (k in {0,2,10}) '
-               'below 2^53, for which float subtraction, max and comparison are exact; rounding of arbitrary floats is not modelled',
-               'the oracle accepts, for a call that reads the clock more than once, any of the readings as "now" (restart reads it twice)',
+               'the exact clauses (elapsed = now - started_at, lengths = successive differences) are theorems of every totally ordered abelian group '
+               '(Z is the instance tied to the implementation through dyadic clocks, where float arithmetic is exact); on arbitrary doubles they '
+               'hold with the IEEE subtraction in place of the exact one — that is what the code computes (theorems C13_float_*, model instance Fnum, '
+               'tied bit-exactly to the implementation on arbitrary finite doubles)',
+               'float inputs of the harness are finite doubles, never -0.0 (its sign is not transported to the model); NaN / infinite readings are '
+               'covered by the theorems (elapsed is never negative nor NaN for ANY readings) but not scripted',
+               'the oracle accepts, for a call that reads the clock more than once, any of the readings as "now" (restart reads it twice); on a float '
+               'clock its expected distance is the exact rational difference correctly rounded (fractions.Fraction), not a float subtraction',
                'thread-safety is out of scope (the class documents itself as not thread-safe)']
-LEVEL_TEXT = ('Unbounded theorems (induction over all call sequences of any length and all clock streams) about a model of StopWatch that is '
-              'proved equal, method by method (15 gen_*_equiv obligations), to a statement-level translation of the class regenerated from the '
-              'source on every run: elapsed never negative on any clock; = now - started_at while running and = stopped_at - started_at while '
-              'stopped under a monotonic clock (clamped at 0 otherwise), with started_at / stopped_at proved to be the readings of the last '
-              '(re)start / stop of the history; elapsed(maximum) <= maximum for maximum >= 0 (the literal clause for negative maxima is refuted: '
-              'it contradicts non-negativity); leftover = max(0, duration - elapsed) and the no-duration cases; expired <-> elapsed > duration; '
-              'splits non-decreasing with lengths = successive differences under a monotonic clock, cleared exactly by (re)starts; the full '
-              'legality table (13 methods x 3 states): every illegal call raises RuntimeError and leaves watch and clock untouched, every legal '
-              'call of every history returns, no other exception is ever raised; number of clock readings per call; context-manager protocol: '
-              '__exit__ with or without an exception triple never raises, returns None (the exception of the with body propagates) and stops a '
-              'running watch, and after any with block (any body, raising or not) the watch is stopped. The arithmetic facts are '
-              'also proved for every ordered abelian group (not only Z).')
+LEVEL_TEXT = ('Unbounded theorems (induction over all call sequences of any length and all clock streams), generic in the number type T of the clock '
+              '(operations 0.0, -, >, >=), about a model of StopWatch proved equal for every T, method by method (16 gen_*_equiv obligations), to a '
+              'statement-level translation of the class regenerated from the source on every run. For every T, no premise: the full legality table '
+              '(14 calls x 3 states), illegal calls raise RuntimeError and leave watch and clock untouched, legal calls return, no other exception, '
+              'state transitions, which call sets _started_at / _stopped_at (history-wise: last (re)start / last stop), splits appended by split and '
+              'cleared exactly by (re)starts, elapsed = max(0, now - started_at) resp. max(0, stopped_at - started_at) cut at the maximum, leftover, '
+              'expired, clock readings per call, the context-manager protocol (__exit__ with an exception triple; any with block leaves the watch '
+              'stopped). For every totally ordered abelian group (premises = the group axioms; Z is the instance): never negative, exactly now - '
+              'started_at under a monotonic clock, <= a non-negative maximum (the literal clause for negative maxima is refuted), leftover = max(0, '
+              'duration - elapsed), expired <-> elapsed > duration, splits non-decreasing with lengths = successive differences. For binary64 '
+              '(SpecFloat; executable instance tied bit-exactly to the implementation on arbitrary finite doubles): never negative nor NaN for ANY '
+              'readings, elapsed(maximum) <= maximum, leftover >= 0, expired <-> elapsed > duration as float comparison, and on valid finite monotone '
+              'readings without overflow now (-) started_at >= 0 and split elapsed values never decrease (IEEE subtraction is monotone); the exact '
+              'clauses hold with the IEEE subtraction in place of the exact one.')
 LEVEL_NOTE = ('Trusted: Coq kernel; the translator tools/gen/gen_C13.py (CPython ast; A-normal form, state kept on raise, fail-closed with baseline '
-              'fallback); numbers modelled as Z — the harness scripts clocks/durations/maxima that are integer multiples of 2^-k below 2^53, where '
-              'float arithmetic is exact (rounding of arbitrary floats is not modelled); timeutils.now is an input (scripted clock); '
-              'thread-safety out of scope. Correspondence compares every return value, exception class, number of now() calls and the five '
-              'private fields after every call. Closed under the global context (no axioms).')
+              'fallback); Base/PyFloat.v (binary64 on SpecFloat) and Flocq for float monotonicity; timeutils.now is an input (scripted clock); '
+              'thread-safety out of scope. Correspondence compares every return value, exception class, number of now() calls and the five private '
+              'fields after every call, for the Z instance (dyadic clocks) and the binary64 instance (arbitrary doubles, float.hex). 58 theorems closed '
+              'under the global context; the 4 float-monotonicity theorems list the standard library\'s classical-reals axioms that Flocq rests on.')
